@@ -75,6 +75,18 @@ def declare(reg):
     reg.external("_get_ctx_dependencies", params=dict(component=Comp), returns=Set(Comp), pure=True,
                  ensures=["result == uf('ctxdeps', Set(Comp), component)"],
                  note="the execution contexts found in the dependency tree of a component (walk_tree): read-only")
+    # the real function, verified against "every execution context in the dependency tree, whatever else the tree contains"; callers
+    # see it as the function ctxdeps (verify_only)
+    reg.external("dr.walk_tree", params=dict(root=Comp), returns=List(Comp), pure=True, ensures=["result == uf('tree_of', List(Comp), root)"],
+                 note="dr.walk_tree(component): the nodes of the dependency tree (a generator, read once)")
+    reg.external("issubclass", params=collections.OrderedDict(c=Comp, cls=None), returns=BOOL,
+                 raises={"TypeError": "uf('not_a_class', BOOL, c)"}, raise_frame="unchanged", ensures=["result == uf('is_exec_ctx', BOOL, c)"],
+                 note="issubclass(c, ExecutionContext) raises TypeError for a dependency that is not a class (a function component)")
+    TREE = "uf('tree_of', List(Comp), component)"
+    CTXK = "(not uf('not_a_class', BOOL, {t}[k]) and uf('is_exec_ctx', BOOL, {t}[k]))"
+    reg.contract(M, "_get_ctx_dependencies", params=dict(component=Comp), returns=Set(Comp), raises={}, verify_only=True, locals=dict(ctxs=Set(Comp)),
+                 loops={0: ["it_0 == %s" % TREE, "forall(x, Comp, (x in ctxs) == exists(k, range(0, i_0), it_0[k] == x and %s))" % CTXK.format(t="it_0")]},
+                 ensures=["forall(x, Comp, (x in result) == exists(k, range(0, len(%s)), %s[k] == x and %s))" % (TREE, TREE, CTXK.format(t=TREE))])
     reg.external("dr.add_ignore", params=dict(c=Comp, i=Comp), modifies=["IGNORE"],
                  ensures=["forall(x, Comp, forall(y, Comp, (x in IGNORE and y in IGNORE[x]) == ((x in old(IGNORE) and y in old(IGNORE)[x]) or (x == c and y == i))))"],
                  note="dr.add_ignore(c, i): IGNORE[c].add(i) on a defaultdict(set) - one statement, stated as its effect")
